@@ -16,6 +16,8 @@ Section Frag.
   Variable C : cmodel.
   Variable objcls : cls -> bool.     (* classes whose instances are objects of the world (not int / str) *)
 
+  (* [st]: strict (every nested match on a collection emits a condition) or lax (the class of finding C11-e allowed) *)
+  Variable st : bool.
   Fixpoint fok_pat (oc : cls) (p : path) (a : nat) (q : pat) {struct q} : bool :=
     match q with
     | Pat t l =>
@@ -23,7 +25,7 @@ Section Frag.
         let kw := negb (is_anil l) in
         let pv := nested_var C oc p a t kw in
         is_some (f_type C oc a) && objcls d
-        && (if f_iter C oc a then type_filter C oc a t || head_ok (tr_alist C d pv l) else true)
+        && (if f_iter C oc a then type_filter C oc a t || negb st || head_ok (tr_alist C d pv l) else true)
         && fok_alist d pv l
     end
   with fok_alist (oc : cls) (p : path) (l : alist) {struct l} : bool :=
@@ -37,12 +39,54 @@ Section Frag.
     | PMatch q => fok_pat oc p a q
     | PAny v => is_some (f_type C oc a) && is_coll v
     | PAll v => is_some (f_type C oc a) && f_iter C oc a && match v with VLO _ => true | _ => false end
+    | PVar _ => false        (* a let-variable as value: finding C11-f (C11_refuted_letvalue) *)
+    | PSel c' => match c' with PMatch _ | PAny _ | PAll _ => fok_apat oc p a c' | _ => false end
     end.
 
-  (* F11: the pattern is well typed against the class model, keyword names are distinct, no nested match on a
+  (* F11 (st = true): the pattern is well typed against the class model, keyword names are distinct, no nested match on a
      collection that emits no condition *)
-  Definition F11 (T : cls) (l : alist) : bool := fok_alist T PRoot l.
 End Frag.
+Definition F11 (C : cmodel) (objcls : cls -> bool) (T : cls) (l : alist) : bool := fok_alist C objcls true T PRoot l.
+(* F11 without the clause that excludes finding C11-e: what is proved there is the relaxed reading [lax_*] below *)
+Definition F11lax (C : cmodel) (objcls : cls -> bool) (T : cls) (l : alist) : bool := fok_alist C objcls false T PRoot l.
+
+(* The relaxed reading that the code implements: as the Spec [matches], except that a nested match on a collection
+   attribute that emits no condition (no type filter, no condition from its keywords) constrains nothing -- it does not
+   even require a member.  For patterns in F11 it coincides with the Spec (lax_strict in MatchProofs.v). *)
+Definition cnil (cs : list tcond) : bool := match cs with [] => true | _ => false end.
+Section Lax.
+  Variable C : cmodel.
+  Variable M : mworld.
+  Fixpoint lax_pat (oc : cls) (p : path) (a : nat) (q : pat) (v : val) {struct q} : bool :=
+    match q with
+    | Pat t l =>
+        let d := dflt (f_type C oc a) in
+        let pv := nested_var C oc p a t (negb (is_anil l)) in
+        match v with
+        | VO o' => type_ok (sub C) M t o' && lax_alist d pv l o'
+        | VLO xs =>
+            if f_iter C oc a && negb (type_filter C oc a t) && cnil (tr_alist C d pv l) then true
+            else existsb (fun x => type_ok (sub C) M t x && lax_alist d pv l x) xs
+        | _ => false
+        end
+    end
+  with lax_alist (oc : cls) (p : path) (l : alist) (o : Z) {struct l} : bool :=
+    match l with
+    | ANil => true
+    | ACons a c rest => lax_apat oc p a c (attr (mw M) o a) && lax_alist oc p rest o
+    end
+  with lax_apat (oc : cls) (p : path) (a : nat) (c : apat) (v : val) {struct c} : bool :=
+    match c with
+    | PLit lit => lit_ok M v lit
+    | PMatch q => lax_pat oc p a q v
+    | PAny vals => common M v vals
+    | PAll vals => same_set M v vals
+    | PVar vals => common M v vals
+    | PSel c' => lax_apat oc p a c' v
+    end.
+  Definition lax_run (T : cls) (l : alist) (dom : list Z) : list Z :=
+    filter (fun o => sub C (otype M o) T && lax_alist T PRoot l o) dom.
+End Lax.
 
 (* hypotheses on the class model and the world (Props; the harness checks the boolean versions below on its data) *)
 Definition sub_refl (C : cmodel) : Prop := forall c, sub C c c = true.
@@ -93,11 +137,22 @@ Definition typed_b (c : mcase) : bool :=
 Fixpoint nodup_b (l : list Z) : bool :=
   match l with [] => true | x :: l' => negb (existsb (Z.eqb x) l') && nodup_b l' end.
 
-Definition model_out (c : mcase) : sx := zset (run (case_cmodel c) (case_world c) (c_T c) (c_pat c) (c_dom c)).
+(* the outcome of the model: the set of identities returned, or [-1; 940] for TypeError (940 = sum of the character
+   codes of "TypeError", the harness's encoding of an exception) *)
+Definition model_out (c : mcase) : sx :=
+  if run_raises (case_cmodel c) (case_world c) (c_T c) (c_pat c) (c_dom c) then SL [SZ (-1); SZ 940]
+  else zset (run (case_cmodel c) (case_world c) (c_T c) (c_pat c) (c_dom c)).
 (* objects that are not listed have class 0, which must not be related to any class *)
 Definition class0_b (c : mcase) : bool := forallb (fun p : nat * nat => negb (Nat.eqb (fst p) 0)) (c_sub c).
 Definition in_F (c : mcase) : bool :=
   F11 (case_cmodel c) (case_objcls c) (c_T c) (c_pat c) && sub_trans_b c && typed_b c && class0_b c.
+Definition model_rows_out (c : mcase) : sx :=
+  if run_raises (case_cmodel c) (case_world c) (c_T c) (c_pat c) (c_dom c) then SL [SZ (-1); SZ 940]
+  else rows_set (run_rows (case_cmodel c) (case_world c) (c_rootsel c) (c_T c) (c_pat c) (c_dom c)).
+Definition lax_out (c : mcase) : sx := zset (lax_run (case_cmodel c) (case_world c) (c_T c) (c_pat c) (c_dom c)).
+Definition in_Flax (c : mcase) : bool :=
+  F11lax (case_cmodel c) (case_objcls c) (c_T c) (c_pat c) && sub_trans_b c && typed_b c && class0_b c.
 (* what the harness asks for per case: model answer, Spec answer, inside F11?, number of conditions emitted *)
 Definition case_out (c : mcase) : sx :=
-  SL [model_out c; spec_out c; SB (in_F c); SN (length (tr_alist (case_cmodel c) (c_T c) PRoot (c_pat c)))].
+  SL [model_out c; spec_out c; SB (in_F c); SN (length (tr_alist (case_cmodel c) (c_T c) PRoot (c_pat c)));
+      lax_out c; SB (in_Flax c); model_rows_out c; spec_rows_out c].
